@@ -282,6 +282,11 @@ func (u *Unit) stmt(st *State, s ast.Stmt, c *Ctl, k func(*State)) {
 		ev := u.ev(st, x.Pos())
 		ch := ev.expr(x.Chan)
 		ev.expr(x.Value)
+		// "send#k": anchor and call-site assertions at the k-th send statement of the unit (what must already hold when the
+		// value is handed over)
+		ord := fmt.Sprintf("send#%d", u.sendOrdOf(x))
+		u.ghostAt(st, ord, x.Pos())
+		u.callSiteClauses(ev, ord, nil, nil, nil)
 		u.chanSendEffect(st, ch)
 		k(st)
 	case *ast.SelectStmt:
@@ -1643,6 +1648,23 @@ func (u *Unit) isHarmlessCall(x *ast.CallExpr) bool {
 }
 
 // goOrdOf numbers go statements of the unit's body in source order.
+func (u *Unit) sendOrdOf(g *ast.SendStmt) int {
+	n, found := 0, -1
+	ast.Inspect(u.body, func(nd ast.Node) bool {
+		if _, isLit := nd.(*ast.FuncLit); isLit {
+			return false // sends inside nested literals belong to those units
+		}
+		if gs, ok := nd.(*ast.SendStmt); ok {
+			if gs == g {
+				found = n
+			}
+			n++
+		}
+		return true
+	})
+	return found
+}
+
 func (u *Unit) goOrdOf(g *ast.GoStmt) int {
 	n, found := 0, -1
 	ast.Inspect(u.body, func(nd ast.Node) bool {
@@ -1726,7 +1748,7 @@ func (u *Unit) anchorsIn(body ast.Node, extra []ast.Node) func(string) bool {
 			var k int
 			fmt.Sscanf(f[1], "%d", &k)
 			return lits[k]
-		case strings.HasPrefix(anchor, "go#") || strings.HasPrefix(anchor, "arm "):
+		case strings.HasPrefix(anchor, "go#") || strings.HasPrefix(anchor, "arm ") || strings.HasPrefix(anchor, "send#"):
 			return vague
 		}
 		return true
